@@ -60,7 +60,7 @@ pub enum Action {
     /// policy v(n+1): allow{everyone, bundle, classifications=[public], min strength strong}
     ///                deny {p1, [read], classifications=[secret]}
     Pol1,
-    /// policy v(n+1): allow{everyone, bundle, unscoped, min strength strong}
+    /// policy v(n+1): allow{everyone, bundle, unscoped}
     ///                deny {p2, [export], unscoped}
     Pol2,
     /// revoke the oldest / newest still-active Grant of this configuration
@@ -407,9 +407,8 @@ impl Cfg {
                 ]).await
             }
             Action::Pol2 => {
-                let strong = Cond { min_strength: 2, ..Default::default() };
                 self.publish(nexus, vec![
-                    MStmt { deny: false, principals: vec![], actions: bundle, scope: Scope::default(), cond: strong, cons: Cons::default() },
+                    MStmt { deny: false, principals: vec![], actions: bundle, scope: Scope::default(), cond: Cond::default(), cons: Cons::default() },
                     MStmt { deny: true, principals: vec![2], actions: strs(&["export"]), scope: Scope::default(), cond: Cond::default(), cons: Cons::default() },
                 ]).await
             }
